@@ -100,6 +100,35 @@ def policy_text(pol):
     return '\n'.join(lines) + '\n'
 
 
+RSA_CERTS = ('ssh-rsa-cert-v01@openssh.com', 'rsa-sha2-256-cert-v01@openssh.com', 'rsa-sha2-512-cert-v01@openssh.com')
+
+
+def legacy_policy_text(pol):
+    """The same policy written with the deprecated per-key directives (hostkey_size_T / cakey_size_T / dh_modulus_size_K), or None when
+    they cannot express it (they imply the CA type: ssh-rsa for the RSA certificate types, ssh-ed25519 otherwise)."""
+    new = policy_text(pol)
+    if new is None or (pol['hostkey_sizes'] is None and pol['dh'] is None):
+        return None
+    lines = [l for l in new.split('\n') if l and not l.startswith('host_key_sizes = ') and not l.startswith('dh_modulus_sizes = ')]
+    for t, v in (pol['hostkey_sizes'] or {}).items():
+        lines.append('hostkey_size_%s = %d' % (t, v[0]))
+        if not (v[1] == '' and v[2] == 0):
+            if v[1] != ('ssh-rsa' if t in RSA_CERTS else 'ssh-ed25519'):
+                return None
+            lines.append('cakey_size_%s = %d' % (t, v[2]))
+    for k, n in (pol['dh'] or {}).items():
+        lines.append('dh_modulus_size_%s = %d' % (k, n))
+    return '\n'.join(lines) + '\n'
+
+
+def load_quiet(text):
+    """Policy(policy_data=text) with the deprecation warning (printed to stdout/stderr by the constructor) swallowed."""
+    import contextlib, io
+    from ssh_audit.policy import Policy
+    with contextlib.redirect_stdout(io.StringIO()), contextlib.redirect_stderr(io.StringIO()):
+        return Policy(policy_data=text)
+
+
 def pol_of_object(P):
     """The state of a real Policy object, as the dict the oracle and the Coq literal are built from."""
     hs = None
@@ -758,8 +787,18 @@ def run(ctx):
             if text is not None:
                 from ssh_audit.policy import Policy
                 P = Policy(policy_data=text)
+                legacy = legacy_policy_text(pol)
                 pol = pol_of_object(P)
                 focus += '/text'
+                if legacy is not None:
+                    # the deprecated spelling of the same policy must load as the same policy (same fields, hence the same verdicts)
+                    got = pol_of_object(load_quiet(legacy))
+                    hist['legacy-text'] = hist.get('legacy-text', 0) + 1
+                    nz = lambda d: {k: (v or None) if k in ('hostkey_sizes', 'dh') else v for k, v in d.items()}   # an empty size map specifies nothing
+                    if nz(got) != nz(pol):
+                        diff = [k for k in pol if nz(got).get(k) != nz(pol).get(k)]
+                        orc.viol('legacy-directives/loaded-differently', 'the policy written with hostkey_size_*/cakey_size_*/dh_modulus_size_* loads with %s = %r, the same policy in the current format with %r; text: %r' % (
+                            diff, [got[k] for k in diff], [pol[k] for k in diff], legacy), pol, peer)
         if P is None:
             P = mk_policy_fields(pol)
             assert pol_of_object(P) == pol, (pol_of_object(P), pol)
@@ -823,6 +862,13 @@ def run(ctx):
         r = one(pol, peer, 'witness', True)
         if len(samples) < 12:
             samples.append({'focus': 'witness', 'policy': pol, 'peer': peer, 'passed': r[0], 'errors': [e['mismatched_field'] for e in r[1]]})
+    # policies whose host-key and modulus sizes are expressible with the deprecated per-key directives (both spellings must load alike)
+    ED_CERT = 'ssh-ed25519-cert-v01@openssh.com'
+    for hs, larger in [({RSA_CERTS[0]: (3072, 'ssh-rsa', 4096)}, False), ({RSA_CERTS[2]: (2048, 'ssh-rsa', 2048), 'ssh-rsa': (3072, '', 0)}, True),
+                       ({ED_CERT: (256, 'ssh-ed25519', 256)}, False), ({'rsa-sha2-512': (4096, '', 0), ED_CERT: (256, 'ssh-ed25519', 256), RSA_CERTS[1]: (3072, 'ssh-rsa', 1024)}, True)]:
+        for delta in (0, -1, 1):
+            peer = new_peer(host_keys={t: (v[0] + delta, v[1], v[2] + (delta if v[1] else 0)) for t, v in hs.items()}, dh={'diffie-hellman-group-exchange-sha256': 3072 + delta})
+            one(new_pol(hostkey_sizes=dict(hs), dh={'diffie-hellman-group-exchange-sha256': 3072}, larger=larger), peer, 'legacy', True, via_text=True)
     # ---- 3. oracle-only random instances (no Coq side): many more
     for i in range(5000 if q else 600000):
         pol, peer = random_case(rng, i % 4 == 0)
